@@ -32,11 +32,16 @@ fn replay(hist: &str, outp: &str) {
     let mut out = Out::create(outp);
     for line in text.lines().filter(|l| !l.trim().is_empty()) {
         let h: Vec<Value> = serde_json::from_str(line).expect("bad history line");
-        let mut buf = vec![0xEEu8; 140];
+        // every buffer a history uses lives until the end of the process (a Writer borrows its buffer; Retemplate moves
+        // the message into a new one)
         let mut ops: Vec<Value> = Vec::new();
         let mut fin: i64 = 0;
+        let mut final_octets: Vec<u8> = Vec::new();
         let res = catch_unwind(AssertUnwindSafe(|| {
-            let mut w = Writer::new(&mut buf[..], 140).unwrap();
+            let first: &'static mut [u8] = Box::leak(vec![0xEEu8; 140].into_boxed_slice());
+            let mut cur_len = 140usize;
+            let mut cur_ptr: *const u8 = first.as_ptr();       // to read the finished octets back (the buffers are leaked, never freed)
+            let mut w = Writer::new(first, 140).unwrap();
             let mut nq = 0u32;
             for a in &h {
                 let a = a.as_array().unwrap();
@@ -73,11 +78,28 @@ fn replay(hist: &str, outp: &str) {
                         w.set_tsig(TsigMode::Request { algorithm: Algorithm::HmacSha256, key: b"secret".to_vec().into() }, prep).map(|_| "ok").unwrap_or_else(errname)
                     }
                     "Clear" => { w.clear_rrs(); "ok" }
+                    "Retemplate" => {
+                        let t = w.into_template();
+                        let nb: &'static mut [u8] = Box::leak(vec![0xEEu8; arg].into_boxed_slice());
+                        let nb_ptr = nb.as_ptr();
+                        match Writer::try_from_template(nb, &t) {
+                            Ok(w2) => { w = w2; cur_len = arg; cur_ptr = nb_ptr; "ok" }
+                            Err(e) => {
+                                // refused: the message lives on in a buffer of the size it had (which changes nothing)
+                                let ob: &'static mut [u8] = Box::leak(vec![0xEEu8; cur_len].into_boxed_slice());
+                                cur_ptr = ob.as_ptr();
+                                w = Writer::try_from_template(ob, &t).expect("a template fits a buffer of the size it came from");
+                                errname(e)
+                            }
+                        }
+                    }
                     "Finish" => {
                         let st = w.verif_state();
                         let n = w.finish();
+                        let octets = unsafe { std::slice::from_raw_parts(cur_ptr, n) }.to_vec();
                         ops.push(json!({"op": "Finish", "arg": 0, "res": "ok", "cursor": st.0, "avail": st.1, "limit": st.2, "fin": n}));
                         fin = n as i64;
+                        final_octets = octets;
                         return;
                     }
                     x => panic!("unknown action {}", x),
@@ -87,7 +109,7 @@ fn replay(hist: &str, outp: &str) {
                 ops.push(json!({"op": name, "arg": arg, "res": r, "cursor": st.0, "avail": st.1, "limit": st.2, "fin": 0}));
             }
         }));
-        out.emit(json!({"ev": "WS", "ops": ops, "fin": fin, "out": if res.is_ok() { "ok" } else { "panic" }, "final": if fin > 0 { buf[..fin as usize].to_vec() } else { Vec::new() }}));
+        out.emit(json!({"ev": "WS", "ops": ops, "fin": fin, "out": if res.is_ok() { "ok" } else { "panic" }, "final": final_octets}));
     }
     eprintln!("writer/replay: {} records", out.finish());
 }
@@ -116,6 +138,8 @@ pub fn main(args: &[String]) {
             let mut w = Writer::new(&mut buf[..], limit).unwrap();
             let mut qname: Option<Box<Name>> = None;
             let mut last_owner: Option<Box<Name>> = None;
+            let mut last_rd_name: Option<Box<Name>> = None;
+            let mut explicit: Vec<(Box<Name>, quandary::message::writer::HintPointer)> = Vec::new();
             let nops = r.gen_range(3..40);
             for opi in 0..nops {
                 // far: the second operation writes www.example.test. in full right after the filler, so that one of its labels
@@ -155,18 +179,29 @@ pub fn main(args: &[String]) {
                     let sec = if force_owner { 0 } else { r.gen_range(0..3) };
                     // far: the same owner twice (www.example.test. or the one-label x.), the second time mostly with the
                     // "most recent owner" hint: a pointer to where the first one starts
-                    let owner = if force_owner { names[far_owner].clone() } else { names.choose(&mut r).unwrap().clone() };
+                    let owner = if force_owner { names[far_owner].clone() }
+                                else if last_rd_name.is_some() && r.gen_bool(0.25) { last_rd_name.clone().unwrap() }
+                                else if !explicit.is_empty() && r.gen_bool(0.1) { explicit.choose(&mut r).unwrap().0.clone() }
+                                else { names.choose(&mut r).unwrap().clone() };
                     // truthful hints only
                     let mut hint = Hint::None; let mut hint_s = "none";
                     if let Some(q) = &qname { if **q == *owner && r.gen_bool(0.5) { hint = Hint::Qname; hint_s = "qname"; } }
                     if hint_s == "none" { if let Some(lo) = &last_owner { if **lo == *owner && (r.gen_bool(0.5) || (force_owner && r.gen_bool(0.6))) { hint = Hint::MostRecentOwner; hint_s = "owner"; } } }
+                    // the other two truthful hints: the most recent name the writer is known to have written inside RDATA
+                    // (compressible or not: NS .. MX targets, SOA RNAME, SRV target, CH A name), and an explicit pointer
+                    // handed out by an earlier add for exactly this name
+                    if hint_s == "none" { if let Some(ln) = &last_rd_name { if **ln == *owner && r.gen_bool(0.6) { hint = Hint::MostRecentNameInRdata; hint_s = "rdname"; } } }
+                    if hint_s == "none" { if let Some((_, p)) = explicit.iter().rev().find(|(n, _)| **n == *owner) { if r.gen_bool(0.6) { hint = Hint::Explicit(*p); hint_s = "explicit"; } } }
+                    // (a name that was just written in some RDATA is a likely next owner: that is what the hints are for)
                     let target = names.choose(&mut r).unwrap().clone();
-                    let (ty, class, rd): (u16, u16, Vec<u8>) = match if force_owner { r.gen_range(1..5) } else { r.gen_range(0..9) } {
+                    let second = names.choose(&mut r).unwrap().clone();
+                    let kind = if force_owner { r.gen_range(1..5) } else { r.gen_range(0..9) };
+                    let (ty, class, rd): (u16, u16, Vec<u8>) = match kind {
                         0 => (1, 1, vec![192, 0, 2, r.gen()]),
                         1 => (2, 1, target.wire_repr().to_vec()),
                         2 => (5, 1, target.wire_repr().to_vec()),
                         3 => { let mut v = vec![0, 10]; v.extend_from_slice(target.wire_repr()); (15, 1, v) }
-                        4 => { let mut v = target.wire_repr().to_vec(); v.extend_from_slice(names.choose(&mut r).unwrap().wire_repr()); v.extend_from_slice(&[0; 20]); (6, 1, v) }
+                        4 => { let mut v = target.wire_repr().to_vec(); v.extend_from_slice(second.wire_repr()); v.extend_from_slice(&[0; 20]); (6, 1, v) }
                         5 => { let mut v = vec![0, 1, 0, 2, 0, 53]; v.extend_from_slice(target.wire_repr()); (33, 1, v) }
                         6 => (65280, 1, target.wire_repr().to_vec()),
                         7 => { let mut v = target.wire_repr().to_vec(); v.extend_from_slice(&[1, 2]); (1, 3, v) } // CH A
@@ -176,6 +211,7 @@ pub fn main(args: &[String]) {
                     let rset = r.gen_bool(0.3);
                     let hn = HintedName::new(hint, &owner);
                     let rdata: &Rdata = rd.as_slice().try_into().unwrap();
+                    let mut hpv = quandary::message::writer::HintPointerVec::new();
                     let (res, n_rd, rd2) = if rset {
                         let rd2: Vec<u8> = match ty { 1 if class == 1 => vec![192, 0, 2, 200], _ => rd.clone() };
                         let rdata2: &Rdata = rd2.as_slice().try_into().unwrap();
@@ -186,12 +222,22 @@ pub fn main(args: &[String]) {
                                              _ => w.add_additional_rrset(hn, ty.into(), class.into(), Ttl::from(ttl), &set, None) };
                         (res, n, rd2)
                     } else {
-                        let res = match sec { 0 => w.add_answer_rr(hn, ty.into(), class.into(), Ttl::from(ttl), rdata, None),
-                                             1 => w.add_authority_rr(hn, ty.into(), class.into(), Ttl::from(ttl), rdata, None),
-                                             _ => w.add_additional_rr(hn, ty.into(), class.into(), Ttl::from(ttl), rdata, None) };
+                        let res = match sec { 0 => w.add_answer_rr(hn, ty.into(), class.into(), Ttl::from(ttl), rdata, Some(&mut hpv)),
+                                             1 => w.add_authority_rr(hn, ty.into(), class.into(), Ttl::from(ttl), rdata, Some(&mut hpv)),
+                                             _ => w.add_additional_rr(hn, ty.into(), class.into(), Ttl::from(ttl), rdata, Some(&mut hpv)) };
                         (res, 1, rd.clone())
                     };
-                    if res.is_ok() { last_owner = Some(owner.clone()); }
+                    if res.is_ok() {
+                        last_owner = Some(owner.clone());
+                        match kind {
+                            1 | 2 | 3 | 5 | 7 => {
+                                last_rd_name = Some(target.clone());
+                                if !rset { if let Some(p) = hpv.get(0) { explicit.push((target.clone(), p)); } }
+                            }
+                            4 => { last_rd_name = Some(second.clone()); }
+                            _ => {}
+                        }
+                    }
                     let mut rdatas = vec![rd.clone()]; if n_rd == 2 { rdatas.push(rd2); }
                     op = json!({"op": "rr", "sec": sec, "owner": owner.wire_repr().to_vec(), "hint": hint_s, "type": ty, "class": class, "ttl": ttl,
                                 "rdatas": rdatas, "res": res.map(|_| "ok").unwrap_or_else(errname)});
@@ -204,7 +250,7 @@ pub fn main(args: &[String]) {
                     let sz: u16 = *[512u16, 1232, 65535].choose(&mut r).unwrap(); let res = w.set_edns(sz);
                     op = json!({"op": "edns", "v": sz, "res": res.map(|_| "ok").unwrap_or_else(errname)});
                 } else {
-                    w.clear_rrs(); last_owner = None; op = json!({"op": "clear", "res": "ok"});
+                    w.clear_rrs(); last_owner = None; last_rd_name = None; explicit.clear(); op = json!({"op": "clear", "res": "ok"});
                 }
                 let st = w.verif_state();
                 op["c0"] = json!(st0.0); op["a0"] = json!(st0.1); op["cursor"] = json!(st.0); op["avail"] = json!(st.1); op["limit"] = json!(st.2);
